@@ -194,7 +194,7 @@ def det_frac(A):
     return d
 
 
-def check_case(ctx, line, meta, hout, dout, iout, stats):
+def check_case(ctx, line, meta, hout, dout, iout, stats, lout=None):
     """returns list of (key, what) problems; the first element says 'corr' (model/impl disagree)
     or 'prop' (implementation violates the property's own predicates)"""
     probs = []
@@ -289,6 +289,16 @@ def check_case(ctx, line, meta, hout, dout, iout, stats):
             rel = 64 * EPS * kS * (abs(float(qf)) + m + 1) * m + 1e-13
             if abs(liks[c] - want) > rel * max(want, 1e-300) + 1e-320:
                 probs.append(("prop", "likelihood-wrong", "component %d: likelihood %.17g, N(y;Hm,S)=%.17g" % (c, liks[c], want)))
+            # correspondence: the model's kfLikelihood (theorem kf_likelihood_eq is about this function)
+            if lout is not None and lout.startswith("ok"):
+                ml = float(frac(lout.split()[1 + c]))
+                stats["lik_model_compared"] = stats.get("lik_model_compared", 0) + 1
+                if abs(ml - want) > rel * max(want, 1e-300) + 1e-320:
+                    probs.append(("corr", "model-likelihood-vs-definition", "component %d: model kfLikelihood %.17g, N(y;Hm,S)=%.17g" % (c, ml, want)))
+                if abs(liks[c] - ml) > 2 * rel * max(want, 1e-300) + 1e-320:
+                    probs.append(("corr", "likelihood-mismatch", "component %d: likelihood %.17g, model %.17g" % (c, liks[c], ml)))
+            elif lout is not None:
+                probs.append(("corr", "model-likelihood-undefined", "model kfLikelihood not defined: %s" % lout[:40]))
     return probs
 
 
@@ -325,7 +335,7 @@ def run(ctx):
     ctx.proof_stage()
     binary = vlib.build_harness("h_kf")
     g = ctx.gen("kfc")
-    N = ctx.n(110, 1000)
+    N = ctx.n(85, 900)
     cases = []   # (harness line, [kfc single lines], meta)
     corpus = vlib.VERIF / "corpus" / "C01" / "cases.txt"
     if corpus.exists():
@@ -341,6 +351,8 @@ def run(ctx):
     singles = [l for c in cases for l in c[1]]
     dout = vlib.run_driver(singles)
     iout = vlib.run_driver([("kfinfo " + " ".join(l.split()[1:-int(l.split()[3])])) for l in singles])
+    # the model's own likelihood (kfLikelihood: exact field operations, log/exp through Float)
+    lout = vlib.run_driver([("kflik " + " ".join(l.split()[1:-int(l.split()[3])])) for l in singles])
     stats, hist, dims = {}, {}, set()
     distinct = set()
     corr_bad, prop_bad = [], []
@@ -362,7 +374,7 @@ def run(ctx):
         for sl, ho in zip(slines, outs):
             distinct.add(sl)
             ncalls_total += 1
-            for kind, key2, what in check_case(ctx, sl, meta, ho, dout[pos], iout[pos], stats):
+            for kind, key2, what in check_case(ctx, sl, meta, ho, dout[pos], iout[pos], stats, lout[pos]):
                 (corr_bad if kind == "corr" else prop_bad).append((key2, what, hline, h))
             pos += 1
     for key2, what, line, h in prop_bad[:20]:
